@@ -75,6 +75,40 @@ def nested_checks(chk, tier, seed):
     return used
 
 
+def full_checks(chk, tier, seed):
+    """check.SolutionCheck at every verbosity on solver-made solutions of full-feature models (alternates = plan-one-of units,
+    stop groups, no-mix, windows ...): harness/fullcheck.go compares everything the solution shows before and after the check and
+    judges has_plannable_best_move (unit must have been unplanned; a single stop must be plannable on a copy)."""
+    import crash_runs as CR
+    import gen_full as GF
+    rng = random.Random(seed * 1009 + 1881)
+    n = 150 if tier == "quick" else 3000
+    blocks, meta = [], {}
+    for i in range(n):
+        force = {"alternates": True, "mixing": False} if i % 2 == 0 else None
+        inp, opts, feats = GF.gen_full(rng, "small" if i % 3 else "medium", force=force)
+        if i % 2 == 0:
+            opts["objectives"]["unplanned_penalty"] = 1.0       # planning another alternate looks like an improvement
+        meta[str(i)] = (inp, opts)
+        blocks.append((str(i), GF.case_lines(inp, opts, {"iterations": 40, "duration_ms": 1500, "runs": 1, "starts": 1, "output": 0, "checkcheck": 1})))
+    res = CR.run_crash(blocks, "c18_full_" + tier, timeout=3000)
+    checked = nd = 0
+    for cid, r in res.items():
+        if r.get("checkchecked"):
+            checked += 1
+        if r.get("checkdiff"):
+            inp, opts = meta[cid]
+            obj = {"kind": "input", "what": "check.SolutionCheck on a solver-made solution: " + r["checkdiff"][0][:400], "differences": r["checkdiff"][:8],
+                   "input": inp, "options": opts, "how": "harness crash checkcheck=1"}
+            if chk.match_known(obj) is None:
+                nd += 1
+            chk.violation(obj)
+    chk.ob("check.SolutionCheck at three verbosities on solver-made solutions of %d full-feature models (half with alternates): "
+           "solution unchanged, reported units were unplanned, reported single stops can be planned" % checked, nd == 0)
+    chk.ev.cov["full_feature_checks"] = checked
+    return checked
+
+
 def run(tier, seed, replay=None):
     chk = FW.Check(PID, tier, seed)
     if not chk.builds(model=True, harness=True):
@@ -113,6 +147,7 @@ def run(tier, seed, replay=None):
                                        "case": G.case_lines(r["case"]["model"], r["case"]["ops"])})
     chk.ob("reported plannable units can be planned; no failed best moves (%d units, %d plannable)" % (nunits, nplannable), not chk.violations)
     nested = nested_checks(chk, tier, seed)
+    full_checks(chk, tier, seed)
     chk.ev.cov.update({
         "nested_check_histories": nested,
         "evaluations": 2 * n, "distinct_nontrivial": nplannable,
@@ -121,5 +156,5 @@ def run(tier, seed, replay=None):
         "search_description": "snapshot before/after and re-planning of reported units",
     })
     chk.ev.assume("nested units: stop groups on models where removing a stop cannot violate a constraint (elsewhere findings N1-N4 make un-planning "
-                  "non-atomic, which the check inherits); alternates are not generated; the random source of the solution is not observable")
+                  "non-atomic, which the check inherits); alternates (plan-one-of units) only in the full-feature stage, judged on the implementation alone; the random source of the solution is not observable")
     return chk.finish()
